@@ -15,6 +15,8 @@
 (*   "WaitHoldsPipes"   after a failed / short read of the sync pipe the parent waits for   *)
 (*                      the child while still holding its ends of the child's stdio pipes:  *)
 (*                      a program that reads its stdin to the end never ends (deadlock)     *)
+(*   "TryWaitNoCache"   Process::try_wait does not remember the status it reaped (a blind  *)
+(*                      mutant): the next wait / try_wait asks the kernel again -> ECHILD   *)
 (* Dev = {} is the code as it stands after the `fix:` commits (see notes/C13.md).           *)
 (* The property-level clauses (SpawnAbs) are evaluated on the observation Obs in EVERY      *)
 (* reachable state.                                                                         *)
@@ -32,6 +34,8 @@ OtherId == 1               \* an unprivileged user / group different from the ca
 EINTR  == 4
 EINVAL == 22
 HelperStatus == 7 * 256    \* the helper program exits with 7
+ECHILD == 10
+NoStatus == -1             \* Process.status = None
 NoFault == [p |-> "-", sys |-> "-", k |-> 0, err |-> 0]
 ArgTok == <<"a1", "a2">>
 EnvTok == <<"e1=x", "e2=y">>
@@ -48,12 +52,13 @@ VARIABLES cfg, fault,                      \* chosen in Init, never changed
           cnt, fired, hist, F,             \* per-process call counts, fault fired, call history, failed steps
           im,                              \* the child's process image being prepared
           ci, cerr, perr, pres,            \* child step index, child/parent error in flight, parent result
-          returns, child, execd, image, reaped, cstatus, waitres   \* the observation
+          wi, cache,                       \* the caller's wait calls on the Child: index into cfg.wseq, Process.status
+          returns, child, execd, image, reaped, cstatus, waits   \* the observation
 vars_all == <<cfg, fault, pc, bi, argv, envmode, vars, envp, theirs, pin, pipe, cnt, fired, hist, F,
-              im, ci, cerr, perr, pres, returns, child, execd, image, reaped, cstatus, waitres>>
+              im, ci, cerr, perr, pres, wi, cache, returns, child, execd, image, reaped, cstatus, waits>>
 
 Obs == [returns |-> returns, failed |-> F, child |-> child, execd |-> execd, image |-> image,
-        reaped |-> reaped, cstatus |-> cstatus, waitres |-> waitres]
+        reaped |-> reaped, cstatus |-> cstatus, waits |-> waits]
 
 \* the configuration in the property's terms
 AbsCfg(c) == [bin |-> IF c.prog = "ok" THEN "bin" ELSE "nobin",
@@ -97,7 +102,9 @@ Init ==
     /\ image = NoImage
     /\ reaped = FALSE
     /\ cstatus = 0
-    /\ waitres = NoWait
+    /\ waits = NoWaits
+    /\ wi = 1
+    /\ cache = NoStatus
 
 (* ---- bookkeeping of one system call ---------------------------------------------------- *)
 Hit(p, s) == ~fired /\ fault.p = p /\ fault.sys = s /\ fault.k = cnt[p][s] + 1
@@ -110,9 +117,9 @@ Did(p, s, e) ==
     /\ F' = IF e # 0 THEN F \cup {[proc |-> p, step |-> s, errno |-> IF e > 0 THEN e ELSE 0]} ELSE F
 NoCall == UNCHANGED <<cnt, fired, hist, F>>
 
-cfgv   == <<cfg, fault>>
+cfgv   == <<cfg, fault, wi, cache>>     \* never changed except by the caller's wait calls
 buildv == <<bi, argv, envmode, vars, envp>>
-obsv   == <<returns, child, execd, image, reaped, cstatus, waitres>>
+obsv   == <<returns, child, execd, image, reaped, cstatus, waits>>
 Goto(p, l) == pc' = [pc EXCEPT ![p] = l]
 
 (* ---- builder: Command::arg / Command::env ---------------------------------------------- *)
@@ -208,7 +215,7 @@ Fork ==
                    /\ pres' = "err"
                    /\ Goto("P", "ret")
                    /\ UNCHANGED <<pipe, child>>
-    /\ UNCHANGED <<pin, cfgv, buildv, theirs, im, ci, cerr, returns, execd, image, reaped, cstatus, waitres>>
+    /\ UNCHANGED <<pin, cfgv, buildv, theirs, im, ci, cerr, returns, execd, image, reaped, cstatus, waits>>
 
 \* let _ = close(write_pipe): the result is ignored, the descriptor is released either way
 ParentCloseWrite ==
@@ -261,38 +268,76 @@ WaitChild(next) ==
 ParentWait ==
     /\ pc.P = "p_wait"
     /\ WaitChild("ret")
-    /\ UNCHANGED <<pin, cfgv, buildv, theirs, pipe, im, ci, cerr, pres, returns, child, execd, image, cstatus, waitres>>
+    /\ UNCHANGED <<pin, cfgv, buildv, theirs, pipe, im, ci, cerr, pres, returns, child, execd, image, cstatus, waits>>
 
 Return ==
     /\ pc.P = "ret"
     /\ returns' = Append(returns, [proc |-> "P", res |-> pres, code |-> IF pres = "ok" THEN 0 ELSE perr,
                                    failed |-> F, child |-> child])
-    /\ Goto("P", IF pres = "ok" THEN "d_drop" ELSE "done")
+    /\ Goto("P", IF pres = "ok" THEN "d_op" ELSE "done")
     /\ pin' = (pin /\ pres = "ok")        \* Ok: the Child owns the pipe ends; Err: `ours` is dropped
-    /\ UNCHANGED <<cfgv, buildv, theirs, pipe, im, ci, cerr, perr, pres, child, execd, image, reaped, cstatus, waitres>>
+    /\ UNCHANGED <<cfgv, buildv, theirs, pipe, im, ci, cerr, perr, pres, child, execd, image, reaped, cstatus, waits>>
     /\ NoCall
 
-\* Child::wait: drop(self.stdin.take()) first
+(* ---- the caller uses the returned Child: cfg.wseq, a sequence over                        *)
+(*   "wait"  Child::wait            (closes the stdin pipe, then Process::wait)               *)
+(*   "try"   one Child::try_wait    (Some / None)                                             *)
+(*   "poll"  close the stdin pipe, then Child::try_wait until it is not None                  *)
+(* Process::wait / try_wait as coded: a cached status is returned without a system call;      *)
+(* otherwise wait4 (WNOHANG for try_wait), and the status is remembered.                      *)
+CurOp == cfg.wseq[wi]
+
+\* Child::wait: drop(self.stdin.take()) first; the polling caller does the same by hand
 DriverDropStdin ==
-    /\ pc.P = "d_drop"
+    /\ pc.P = "d_op"
+    /\ wi <= Len(cfg.wseq)
+    /\ CurOp \in {"wait", "poll"}
+    /\ pin
     /\ pin' = FALSE
-    /\ Goto("P", "d_wait")
+    /\ UNCHANGED <<cfgv, pc, buildv, theirs, pipe, im, ci, cerr, perr, pres, obsv>>
+    /\ NoCall
+
+Report(res, st) == waits' = Append(waits, [res |-> res, status |-> st])
+
+DriverOp ==
+    /\ pc.P = "d_op"
+    /\ wi <= Len(cfg.wseq)
+    /\ (CurOp \in {"wait", "poll"} => ~pin)
+    /\ IF cache # NoStatus
+       THEN \* if let Some(status) = self.status { return Ok(status) }
+            /\ Report("ok", cache)
+            /\ UNCHANGED <<cache, reaped>>
+            /\ NoCall
+       ELSE IF Hit("P", "wait4")
+       THEN /\ Did("P", "wait4", fault.err)
+            /\ Report("err", fault.err)
+            /\ UNCHANGED <<cache, reaped>>
+       ELSE IF reaped
+       THEN \* the kernel no longer knows the child
+            /\ Did("P", "wait4", ECHILD)
+            /\ Report("err", ECHILD)
+            /\ UNCHANGED <<cache, reaped>>
+       ELSE IF child = "exited"
+       THEN /\ Did("P", "wait4", 0)
+            /\ Report("ok", cstatus)
+            /\ reaped' = TRUE
+            /\ cache' = IF CurOp # "wait" /\ "TryWaitNoCache" \in Dev THEN NoStatus ELSE cstatus
+       ELSE \* the child still runs: wait / poll block (disabled), a single try_wait says None
+            /\ CurOp = "try"
+            /\ Did("P", "wait4", 0)
+            /\ Report("none", 0)
+            /\ UNCHANGED <<cache, reaped>>
+    /\ wi' = wi + 1
+    /\ UNCHANGED <<pin, cfg, fault, pc, buildv, theirs, pipe, im, ci, cerr, perr, pres, returns, child, execd, image, cstatus>>
+
+\* the caller is done with the Child (dropping it closes the pipes it still owns)
+DriverDone ==
+    /\ pc.P = "d_op"
+    /\ wi > Len(cfg.wseq)
+    /\ pin' = FALSE
+    /\ Goto("P", "done")
     /\ UNCHANGED <<cfgv, buildv, theirs, pipe, im, ci, cerr, perr, pres, obsv>>
     /\ NoCall
-
-\* the caller then calls Child::wait
-DriverWait ==
-    /\ pc.P = "d_wait"
-    /\ IF Hit("P", "wait4")
-       THEN /\ Did("P", "wait4", fault.err)
-            /\ waitres' = [res |-> "err", status |-> fault.err]
-            /\ UNCHANGED reaped
-       ELSE /\ child = "exited"
-            /\ Did("P", "wait4", 0)
-            /\ waitres' = [res |-> "ok", status |-> cstatus]
-            /\ reaped' = TRUE
-    /\ Goto("P", "done")
-    /\ UNCHANGED <<pin, cfgv, buildv, theirs, pipe, im, ci, cerr, perr, pres, returns, child, execd, image, cstatus>>
 
 (* ---- do_spawn, child side --------------------------------------------------------------- *)
 \* what a failing child step does
@@ -334,7 +379,7 @@ Dup2 ==
                         /\ UNCHANGED <<pc, cerr, returns, child>>
                    ELSE /\ ChildFail(e)
                         /\ UNCHANGED <<im, ci>>
-    /\ UNCHANGED <<pin, cfgv, buildv, theirs, pipe, perr, pres, execd, image, reaped, cstatus, waitres>>
+    /\ UNCHANGED <<pin, cfgv, buildv, theirs, pipe, perr, pres, execd, image, reaped, cstatus, waits>>
 
 \* one optional call: chdir / setuid / setgid / setpgid
 OptStep(label, next, wanted, s, nat, newim) ==
@@ -351,7 +396,7 @@ OptStep(label, next, wanted, s, nat, newim) ==
                         /\ UNCHANGED <<cerr, returns, child>>
                    ELSE /\ ChildFail(e)
                         /\ UNCHANGED im
-    /\ UNCHANGED <<pin, cfgv, buildv, theirs, pipe, ci, perr, pres, execd, image, reaped, cstatus, waitres>>
+    /\ UNCHANGED <<pin, cfgv, buildv, theirs, pipe, ci, perr, pres, execd, image, reaped, cstatus, waits>>
 
 Chdir   == OptStep("c_chdir", "c_setuid", cfg.cwd # "none", "chdir",
                    IF cfg.cwd = "missing" THEN ENOENT ELSE 0, [im EXCEPT !.cwd = "dirA"])
@@ -376,7 +421,7 @@ PreExec ==
                        THEN UNCHANGED <<pc, F, cerr, returns, child>>
                        ELSE /\ F' = F \cup {[proc |-> "C", step |-> "pre_exec", errno |-> IF code > 0 THEN code ELSE 0]}
                             /\ ChildFail(code)
-    /\ UNCHANGED <<pin, cfgv, buildv, theirs, pipe, cnt, fired, im, ci, perr, pres, execd, image, reaped, cstatus, waitres>>
+    /\ UNCHANGED <<pin, cfgv, buildv, theirs, pipe, cnt, fired, im, ci, perr, pres, execd, image, reaped, cstatus, waits>>
 
 EnvUsed == CASE envmode = "inherit" -> PEnv          \* crate::env::ENV.env_p
              [] envmode = "none"    -> << >>         \* NULL_ENV
@@ -397,7 +442,7 @@ Execve ==
               ELSE /\ cerr' = IF "ExecveNegErrno" \in Dev THEN 0 - e ELSE e
                    /\ Goto("C", "c_write")
                    /\ UNCHANGED <<execd, image, child, pipe>>
-    /\ UNCHANGED <<pin, cfgv, buildv, theirs, im, ci, perr, pres, returns, reaped, cstatus, waitres>>
+    /\ UNCHANGED <<pin, cfgv, buildv, theirs, im, ci, perr, pres, returns, reaped, cstatus, waits>>
 
 \* let _ = write(write_pipe, errno ++ "NOEX")   (one atomic pipe write)
 WriteErrno ==
@@ -413,7 +458,7 @@ Exit1 ==
     /\ cstatus' = 256
     /\ pipe' = [pipe EXCEPT !.w = @ \ {"C"}, !.r = @ \ {"C"}]
     /\ Goto("C", "gone")
-    /\ UNCHANGED <<pin, cfgv, buildv, theirs, im, ci, cerr, perr, pres, returns, execd, image, reaped, waitres>>
+    /\ UNCHANGED <<pin, cfgv, buildv, theirs, im, ci, cerr, perr, pres, returns, execd, image, reaped, waits>>
     /\ NoCall
 
 \* environment: the exec'ed program runs and exits
@@ -423,7 +468,7 @@ ProgExits ==
     /\ child' = "exited"
     /\ cstatus' = HelperStatus
     /\ Goto("C", "gone")
-    /\ UNCHANGED <<pin, cfgv, buildv, theirs, pipe, im, ci, cerr, perr, pres, returns, execd, image, reaped, waitres>>
+    /\ UNCHANGED <<pin, cfgv, buildv, theirs, pipe, im, ci, cerr, perr, pres, returns, execd, image, reaped, waits>>
     /\ NoCall
 
 \* environment: the second copy of the caller (deviation ChildReturnsErr) eventually exits
@@ -433,13 +478,13 @@ CallerCopyExits ==
     /\ cstatus' = 97 * 256
     /\ pipe' = [pipe EXCEPT !.w = @ \ {"C"}, !.r = @ \ {"C"}]
     /\ Goto("C", "gone")
-    /\ UNCHANGED <<pin, cfgv, buildv, theirs, im, ci, cerr, perr, pres, returns, execd, image, reaped, waitres>>
+    /\ UNCHANGED <<pin, cfgv, buildv, theirs, im, ci, cerr, perr, pres, returns, execd, image, reaped, waits>>
     /\ NoCall
 
 Terminal == pc.P = "done" /\ pc.C \in {"none", "gone"}
 
 Next == \/ BuildArg \/ BuildEnv \/ SetupIo \/ SyncPipe \/ Fork \/ ParentCloseWrite \/ ReadPipe
-        \/ ParentWait \/ Return \/ DriverDropStdin \/ DriverWait
+        \/ ParentWait \/ Return \/ DriverDropStdin \/ DriverOp \/ DriverDone
         \/ ChildCloseRead \/ Dup2 \/ Chdir \/ Setuid \/ Setgid \/ Setpgid \/ PreExec \/ Execve
         \/ WriteErrno \/ Exit1 \/ ProgExits \/ CallerCopyExits
         \/ (Terminal /\ UNCHANGED vars_all)     \* so that a deadlock = somebody blocked forever
@@ -461,5 +506,7 @@ AbsHolds == AbsViolated = {}
 ProbeOk        == ~(Len(returns) = 1 /\ returns[1].res = "ok")
 ProbeErrParent == ~(Len(returns) = 1 /\ returns[1].res = "err" /\ child = "none")
 ProbeErrChild  == ~(Len(returns) = 1 /\ returns[1].res = "err" /\ reaped)
-ProbeWaited    == ~(waitres.res = "ok")
+ProbeWaited    == ~(\E i \in DOMAIN waits : waits[i].res = "ok")
+ProbeWaitedTwice == ~(\E i, j \in DOMAIN waits : i < j /\ waits[i].res = "ok" /\ waits[j].res = "ok")
+ProbeTryNone   == ~(\E i \in DOMAIN waits : waits[i].res = "none")
 =============================================================================
